@@ -43,7 +43,6 @@ Import ListNotations.
 Require Import MayV.Io.IoModel.
 
 (* the instance of the Section parameters the traces are checked against *)
-Definition capv : nat := 100 * 1000.                   (* K1: no tracked write ever finds the buffer full (small transfers) *)
 Definition peerv (f : nat) : nat := if Nat.even f then S f else pred f.       (* connection c = descriptors 2c, 2c+1 *)
 Definition selv (f : nat) : nat := f.                  (* one model selector per descriptor; `selthr` ties them to threads *)
 
@@ -68,13 +67,17 @@ Record aux := {
   cnull : nat -> option nat;     (* descriptor -> timer entry that a cancel is about to null / has just nulled *)
   seen : list nat                (* model actors that started an operation *)
 }.
-Record ast := { ms : st; ax : aux }.
+(* `acap`: the capacity K1 of the kernel object the trace is checked against.  The scenario may announce it with its
+   FIRST event (io.cap: a writer-blocking scenario measures it on a probe connection: how many of its fixed-size
+   writes the socket buffer takes); `fresh` = no event has been accepted yet, the model is still in `init` *)
+Record ast := { ms : st; ax : aux; acap : nat; fresh : bool }.
 
 Definition aux0 : aux :=
   {| tm := fun _ => MNone; cmap := []; nco := 0; oflag := []; oco := []; preflag := []; selthr := fun _ => None;
      selcur := fun _ => None; selpre := fun _ => None; fds := []; dgr := fun _ => false; amap := fun _ => None; cpend := fun _ => None;
      ctgt := fun _ => None; precan := []; cnull := fun _ => None; seen := [] |}.
-Definition ainit : ast := {| ms := init; ax := aux0 |}.
+Definition capv : nat := 100 * 1000.                   (* default: no tracked write ever finds the buffer full (small transfers) *)
+Definition ainit : ast := {| ms := init; ax := aux0; acap := capv; fresh := true |}.
 
 Definition set_tm x v := {| tm := v; cmap := cmap x; nco := nco x; oflag := oflag x; oco := oco x; preflag := preflag x; selthr := selthr x; selcur := selcur x; selpre := selpre x; fds := fds x; dgr := dgr x; amap := amap x; cpend := cpend x; ctgt := ctgt x; precan := precan x; cnull := cnull x; seen := seen x |}.
 Definition set_cmap x v n := {| tm := tm x; cmap := v; nco := n; oflag := oflag x; oco := oco x; preflag := preflag x; selthr := selthr x; selcur := selcur x; selpre := selpre x; fds := fds x; dgr := dgr x; amap := amap x; cpend := cpend x; ctgt := ctgt x; precan := precan x; cnull := cnull x; seen := seen x |}.
@@ -171,7 +174,7 @@ Definition is_err (v : Z) : bool := 4294967296 <=? v.
 
 Section Acc.
 Variable calm : bool.
-Notation mstep := (step capv peerv selv true true calm).
+Definition mstep (cap : nat) := step cap peerv selv true true calm.
 
 Definition mkplan (s : ast) (e : list Z) : plan :=
   let m := ms s in let x := ax s in
@@ -486,20 +489,28 @@ Definition mkplan (s : ast) (e : list Z) : plan :=
   | _ => None
   end.
 
-Fixpoint exec (m : st) (l : list action) : option st :=
+Fixpoint exec (cap : nat) (m : st) (l : list action) : option st :=
   match l with
   | [] => Some m
-  | a :: r => match mstep m a with Some m' => exec m' r | None => None end
+  | a :: r => match mstep cap m a with Some m' => exec cap m' r | None => None end
   end.
 
+Definition is_cap (e : list Z) : option nat :=
+  match e with [11; _; n; _] => Some (Z.to_nat n) | _ => None end.
+
 Definition accept_ev (s : ast) (e : list Z) : option ast :=
-  match mkplan s e with
-  | Some (al, post, x') =>
-      match exec (ms s) al with
-      | Some m' => if post m' then Some {| ms := m'; ax := x' |} else None
+  match is_cap e with
+  | Some n => (* io.cap n: only as the first event *)
+      if fresh s then Some {| ms := init; ax := ax s; acap := n; fresh := true |} else None
+  | None =>
+      match mkplan s e with
+      | Some (al, post, x') =>
+          match exec (acap s) (ms s) al with
+          | Some m' => if post m' then Some {| ms := m'; ax := x'; acap := acap s; fresh := false |} else None
+          | None => None
+          end
       | None => None
       end
-  | None => None
   end.
 
 Fixpoint accept_all (s : ast) (tr : list (list Z)) : option ast :=
@@ -508,35 +519,50 @@ Fixpoint accept_all (s : ast) (tr : list (list Z)) : option ast :=
   | e :: l => match accept_ev s e with Some s' => accept_all s' l | None => None end
   end.
 
-Notation MReach := (Reach capv peerv selv true true calm).
+Notation MReach c := (Reach c peerv selv true true calm).
 
-Lemma exec_reach l : forall m m', MReach m -> exec m l = Some m' -> MReach m'.
+Lemma exec_reach c l : forall m m', MReach c m -> exec c m l = Some m' -> MReach c m'.
 Proof.
   induction l as [|a l IH]; cbn [exec]; intros m m' R H.
   - inversion H; subst; exact R.
-  - destruct (mstep m a) as [m1|] eqn:E; [|discriminate]. eapply IH; [eapply RS; eauto | exact H].
+  - destruct (mstep c m a) as [m1|] eqn:E; [|discriminate]. eapply IH; [eapply RS; eauto | exact H].
 Qed.
 
-Lemma accept_ev_reach s e s' : MReach (ms s) -> accept_ev s e = Some s' -> MReach (ms s').
+(* the model state of an acceptor state is reachable for the capacity the acceptor state carries *)
+Definition Good (s : ast) : Prop := MReach (acap s) (ms s).
+
+Lemma accept_ev_good s e s' : Good s -> accept_ev s e = Some s' -> Good s'.
 Proof.
-  unfold accept_ev. intros R H.
+  unfold accept_ev, Good. intros R H.
+  destruct (is_cap e) as [n|].
+  - destruct (fresh s); [|discriminate]. inversion H; subst; cbn [ms acap]. apply R0.
+  - destruct (mkplan s e) as [[[al post] x']|]; [|discriminate].
+    destruct (exec (acap s) (ms s) al) as [m'|] eqn:E; [|discriminate].
+    destruct (post m'); [|discriminate]. inversion H; subst; cbn [ms acap]. eapply exec_reach; eauto.
+Qed.
+
+Lemma accept_ev_cap s e s' : accept_ev s e = Some s' -> fresh s = false -> acap s' = acap s /\ fresh s' = false.
+Proof.
+  unfold accept_ev. intros H F. rewrite F in H.
+  destruct (is_cap e); [discriminate|].
   destruct (mkplan s e) as [[[al post] x']|]; [|discriminate].
-  destruct (exec (ms s) al) as [m'|] eqn:E; [|discriminate].
-  destruct (post m'); [|discriminate]. inversion H; subst; cbn [ms]. eapply exec_reach; eauto.
+  destruct (exec (acap s) (ms s) al) as [m'|]; [|discriminate].
+  destruct (post m'); [|discriminate]. inversion H; subst; cbn. auto.
 Qed.
 
 (* every state along an accepted trace of the implementation is a reachable state of the model *)
-Theorem accept_all_reach tr : forall s s', MReach (ms s) -> accept_all s tr = Some s' -> MReach (ms s').
+Theorem accept_all_reach tr : forall s s', Good s -> accept_all s tr = Some s' -> Good s'.
 Proof.
   induction tr as [|e l IH]; cbn [accept_all]; intros s s' R H; [inversion H; subst; exact R|].
-  destruct (accept_ev s e) as [s1|] eqn:E; [|discriminate]. eapply IH; [eapply accept_ev_reach; eauto | exact H].
+  destruct (accept_ev s e) as [s1|] eqn:E; [|discriminate]. eapply IH; [eapply accept_ev_good; eauto | exact H].
 Qed.
 
-Lemma ainit_reach : MReach (ms ainit).
+Lemma ainit_good : Good ainit.
 Proof. apply R0. Qed.
 
-Corollary accepted_trace_reach tr s' : accept_all ainit tr = Some s' -> MReach (ms s').
-Proof. apply accept_all_reach, ainit_reach. Qed.
+(* ... of the model instance with the capacity the trace announced (the default if it announced none) *)
+Corollary accepted_trace_reach tr s' : accept_all ainit tr = Some s' -> MReach (acap s') (ms s').
+Proof. apply accept_all_reach, ainit_good. Qed.
 
 End Acc.
 
